@@ -272,6 +272,11 @@ def run(tier, seed):
          {'number_1099-div': '15', 'number_1099-int': '0', 'box_1a': '100.00', 'box_1b': '0.00', '1099-div:14.box_1a': '200.00', 'ordinary_dividends_incorrect': 'no',
           'qualified_dividends_incorrect': 'no'}, {}),
     ]
+    # 2021 only: mortgage insurance premiums with an adjusted gross income over $100,000 need the limitation worksheet (not implemented)
+    numeric.append(('mortgage-insurance-premiums-with-agi-over-100000',
+                    {'itemize': 'yes', 'number_1098': '1', '1098:0.box_1': '9000.00', '1098:0.box_5': '800.00', '1098:0.box_6': '0.00', 'loan_limitations': 'no',
+                     'mortgage_insurance_premiums_special': 'no', 'state_local_real_estate_taxes': '9000.00', 'charitable_cash_check': '9000.00',
+                     'general_sales_tax': 'no', 'w-2:0.box_1': '125000.00', 'charitable_other_than_cash_check': '0.00'}, {'itemize': True, 'wages': 125000, 'others': False, 'years': [2021]}))
     hsa = {'schedule_1_income_adjustments': 'yes', 'hsa_contribution_you': 'yes', 'hsa_contribution_spouse': 'no', 'age_under_55': 'yes',
            'hsa_full_year': 'yes', 'hdhp_plan_family': 'no', 'part_2_needed': 'no', 'part_3_needed': 'no', 'qualified_distribution': 'no',
            'archer_msa': '0.00', 'principal_abode_us': 'yes'}
@@ -280,8 +285,10 @@ def run(tier, seed):
     special_hsa = {y_: (sd_, pf_) for (y_, fm_, sd_, pf_) in scenarios.special_scenarios() if sd_ == 9001}
     for year in summ:
         for label, ov, pmod in numeric:
+            if year not in pmod.get('years', [year]):
+                continue
             prof = {'status': 'Single', 'amounts': 'cents', 'wages': 60000, 'n_w2': 1, 'n_dep': 0, 'others': True}
-            prof.update(pmod)
+            prof.update({k_: v_ for k_, v_ in pmod.items() if k_ != 'years'})
             sseed_ = 4242
             if label.startswith('hsa') and year in special_hsa:
                 # the fixed HSA scenario (which solves), as a single filer, with the contribution pushed over the limit
